@@ -615,9 +615,9 @@ func CheckFieldStageA(run *report.Run, p *load.Program, rulePrefix string) []*Pr
 		}
 	}
 
+	rules.Flush()
 	be.checkClosure(run, p, a, rules, rows)
 	be.controls(run, p, a, rules, entries, ovs)
-	rules.Flush()
 
 	run.Extra["stageA_table_"+p.Cfg.ID] = rows
 	run.Extra["stageA_headroom_"+p.Cfg.ID] = be.HDoc
